@@ -137,6 +137,11 @@ def impl(case):
     else:
         Zv = points(case["Z"], case["scalar"])
         Z = case["Z"]
+        if all(x.split("/")[1] == "1" for pt in case["Z"] for x in pt):
+            # integral data (pixel / grid coordinates) given as ONE integer numpy array, (n,) or (n, dim)
+            import numpy as np
+            Zv = np.array([int(pt[0].split("/")[0]) for pt in case["Z"]] if case["scalar"]
+                          else [[int(x.split("/")[0]) for x in pt] for pt in case["Z"]])
     if case.get("U0") is not None:
         capture(lambda: curve.fit_points(Zv, nodes))
         curve.update(U, None)
